@@ -9,4 +9,8 @@ for id in $(python3 -c "import json; print(' '.join(c['property_id'] for c in js
   echo "$id exit=$e $(( $(date +%s) - s ))s $(echo "$out" | grep -c '^VIOLATION') violation line(s); $(echo "$out" | tail -1 | cut -c1-140)"
   [ $e -ne 0 ] && rc=1
 done
+if [ "$tier" = thorough ]; then
+  # independent re-check of every compiled file the Props theorems depend on (about 7 minutes); report in coqchk-report.txt
+  harness/coqchk.sh > /dev/null 2>&1 && echo "coqchk ok (Axioms: <none>)" || { echo "coqchk FAILED (see coqchk-report.txt)"; rc=1; }
+fi
 exit $rc
